@@ -72,6 +72,8 @@ def check_plan(reader, D, pl, allocator=None):
             require(isinstance(arr, np.ndarray) and arr.ndim == 1, "block:not-1d-array")
             blocks.append((int(nread), int(ii), arr.copy()))
             yielded += 1
+            if pl.get("abandon") is not None and yielded >= pl["abandon"]:
+                break  # the consumer walks away mid-plan; the next plan on this reader must not care
             require(yielded <= 4 * eff + 4, "plan:does-not-terminate", f"{pl}")
     except Violation:
         raise
@@ -114,6 +116,9 @@ def check_plan(reader, D, pl, allocator=None):
             pieces.append(got[skipback:])
         pos = pos + ln - skipback
     cat = np.concatenate(pieces) if pieces else np.empty((0, nchans), D.dtype)
+    if pl.get("abandon") is not None and cat.shape[0] < eff:
+        labels.append("abandoned_midway")
+        return labels, len(blocks)
     if cat.shape[0] != eff:
         raise Violation("plan:wrong-total", f"plan={pl} N={N}: delivered {cat.shape[0]} samples, requested {eff}")
     if not eq_bits(cat, want):
@@ -186,6 +191,9 @@ def strat_random(tier):
         lay = draw(vs.layout(max_samples=mx, min_samples=2))
         n = sum(lay["split"])
         plans = draw(st.lists(vs.plan(n), min_size=1, max_size=4))
+        for pl in plans[:-1]:
+            if draw(st.integers(0, 3)) == 0:
+                pl["abandon"] = draw(st.integers(1, 3))
         return {"layout": lay, "plans": plans, "np_alloc": draw(st.sampled_from([False, False, False, True]))}
 
     return s()
